@@ -413,8 +413,12 @@ def main(prop, level, case_fn, tiers, rule, assumptions=(), setup_fn=None, requi
         coverage.update(extra_coverage)
     evidence = dict(property_id=prop, tier=args.tier, seed=int(args.seed), level=level, coverage=coverage,
                     assumptions=list(assumptions), wall_s=round(wall, 2), violations=len(new_violations))
-    os.makedirs(os.path.join(env.VERIF_ROOT, "evidence"), exist_ok=True)
-    with open(os.path.join(env.VERIF_ROOT, "evidence", f"{prop}.json"), "w") as f:
+    # evidence/<id>.json describes runs against /repo itself; a run against a scratch copy (mutant self-test) must not overwrite it
+    evdir = os.path.join(env.VERIF_ROOT, "evidence")
+    if os.path.realpath(env.REPO) != os.path.realpath("/repo"):
+        evdir = os.path.join(env.WORK, "evidence-not-repo")
+    os.makedirs(evdir, exist_ok=True)
+    with open(os.path.join(evdir, f"{prop}.json"), "w") as f:
         json.dump(evidence, f, indent=1)
 
     # clean work dir (and scratch directories that cases of this property may have left behind)
